@@ -32,6 +32,16 @@ for c in cases:
                 confl = [(x.state.state_id, x.term.fqn, [p.prod_id for p in x.productions])
                          for x in t.sr_conflicts + t.rr_conflicts]
                 out.append(hashlib.sha256((ser + repr(confl)).encode()).hexdigest()[:16])
+        # the conflict report as the user sees it: the text of the exception
+        import contextlib, io
+        from parglare.exceptions import SRConflicts, RRConflicts
+        for tb in (parglare.LALR, parglare.SLR):
+            try:
+                with contextlib.redirect_stdout(io.StringIO()):
+                    Parser(g, tables=tb, prefer_shifts=False, prefer_shifts_over_empty=False)
+                out.append("noconf")
+            except (SRConflicts, RRConflicts) as e:
+                out.append(hashlib.sha256(str(e).encode()).hexdigest()[:16])
         gp = GLRParser(g)
         for text in c["inputs"]:
             try:
